@@ -259,6 +259,8 @@ def run(ck):
                     # parameter block, not only for the ones the sigmoid argument and the configuration factor decide
                     sig = sc[0][6] if isinstance(sc[0][6], T.Poly) else getattr(sc[0][4], "term", None)
                     sp_ = T.as_stack0(sig) if sig is not None else None
+                    if sp_ is None and sig is not None and isinstance(sig.single_atom(), T.App) and sig.single_atom().op in ("where", "x:torch.where"):
+                        sp_ = (T.idx0(sig, 0), T.idx0(sig, 1))  # the pair selected elementwise between two pairs
                     comps = T.as_stack0(g.term) if g.term is not None else None
                     if comps is None and g.term is not None:
                         # the pair with its last na entries (the auxiliary-bias segment, when that is the last parameter) overwritten
@@ -604,7 +606,13 @@ def _pair_einsum(t):
                 ins, out = e.args[0].split("->")
                 ab = ins.split(",")
                 st = T.as_stack0(e.args[1])
-                if len(ab) == 2 and st is not None and ab[0][:1].isalpha() and out[:1] == ab[0][:1] and ab[0][0] not in ab[1] and ab[0][0] not in ab[0][1:] and 0 <= a.args[1] < len(st):
+                if st is None:
+                    # a pair selected elementwise between two pairs: its components are selections between the components
+                    c0_ = T.idx0(e.args[1], a.args[1])
+                    ca_ = c0_.single_atom() if hasattr(c0_, "single_atom") else None
+                    if not (isinstance(ca_, T.App) and ca_.op == "idx0"):
+                        st = {a.args[1]: c0_}
+                if len(ab) == 2 and st is not None and ab[0][:1].isalpha() and out[:1] == ab[0][:1] and ab[0][0] not in ab[1] and ab[0][0] not in ab[0][1:] and (a.args[1] in st if isinstance(st, dict) else 0 <= a.args[1] < len(st)):
                     return T.app("einsum2", "%s,%s->%s" % (ab[0][1:], ab[1], out[1:]), st[a.args[1]], e.args[2])
         return None
 
